@@ -352,8 +352,13 @@ async fn exec_inner(world: Arc<World>, c: usize, spec: CallSpec) -> (String, Val
             let messages = msgs
                 .iter()
                 .map(|m| {
-                    let (data, attributes) = payload(&m.p);
-                    PubsubMessage { data, attributes, ..Default::default() }
+                    // `key:<k>:<class>` publishes <class> with ordering key <k>
+                    let (ordering_key, class) = match m.p.strip_prefix("key:").and_then(|r| r.split_once(':')) {
+                        Some((k, rest)) => (k.to_string(), rest.to_string()),
+                        None => (String::new(), m.p.clone()),
+                    };
+                    let (data, attributes) = payload(&class);
+                    PubsubMessage { data, attributes, ordering_key, ..Default::default() }
                 })
                 .collect::<Vec<_>>();
             world.ev(
